@@ -496,8 +496,12 @@ class ImmutableVersion(dns.zone.Version):
         c = cast(dns.btree.BTreeDict, self.nodes).cursor()
         c.seek(target, False)
         left = c.prev()
+        # Names beneath a delegation are occluded; like the right bound, the
+        # left bound must not be one of them.
+        while left is not None and left.value().is_glue():
+            left = c.prev()
         assert left is not None
-        c.next()  # skip over left
+        c.seek(target, False)  # reposition just after target for the right bound
         while True:
             right = c.next()
             if right is None or not right.value().is_glue():
@@ -513,9 +517,10 @@ class ImmutableVersion(dns.zone.Version):
                 len(origin),
             )
             right_key = None
-        closest_encloser = dns.name.Name(
-            name[-max(left_comparison[2], right_comparison[2]) :]
-        )
+        # Slice from the front: with zero labels in common (the closest encloser
+        # is the origin of a relativized zone) name[-0:] would be the whole name.
+        common = max(left_comparison[2], right_comparison[2])
+        closest_encloser = dns.name.Name(name[len(name) - common :])
         return Bounds(
             name,
             left.key(),
